@@ -8,8 +8,12 @@
     SET-/SHIFT-FREQUENCY/-PHASE/-SCALE, SWAP-PHASES, PULSE / CAPTURE / RAW-CAPTURE (NONBLOCKING
     prefix, frame identifiers, waveform invocations with named parameters), CALL (identifier,
     memory-reference and immediate arguments) — at token level (the lexer is C05-C07's).
-    Excluded by named decidable classes (open findings): [rawcapture_region_i],
-    [call_immediate_then_i]. *)
+    Block definitions ([item], [C02_item_roundtrip] ff.): DEFCAL, DEFCAL MEASURE, DEFCIRCUIT with
+    non-empty bodies of fragment instructions (indentation tokens), DEFFRAME (string / expression
+    attributes), DEFWAVEFORM.  Excluded by named decidable classes (open findings):
+    [rawcapture_region_i], [call_immediate_then_i]; by the type of bodies:
+    [nested-block-definition]; by [nonempty]: [empty-definition-body].  DEFGATE and the program
+    container are covered by the round-trip oracle on the real implementation only. *)
 From Coq Require Import List NArith ZArith Bool.
 From QV Require Import Model.ParsePanic Model.PrintParse Proofs.PrintParseProofs.
 Import ListNotations.
@@ -48,6 +52,36 @@ Corollary C02_print_stable :
     forall l', p_program Repaired (print_program l) = Ok l' [] -> print_program l' = print_program l.
 Proof. intros l H l' H'. rewrite (program_rt l H) in H'. now injection H' as <-. Qed.
 
+(** Block definitions: every well-formed item (a fragment instruction, or a DEFCAL / DEFCAL
+    MEASURE / DEFCIRCUIT with a non-empty body of fragment instructions, a DEFFRAME with a
+    non-empty duplicate-free attribute list, a DEFWAVEFORM with at least one entry), printed and
+    followed by the end of input or an unindented line, parses back to exactly that item. *)
+Theorem C02_item_roundtrip :
+  forall (it : item) (rest : list tok), wf_item it = true -> block_end rest ->
+    p_item Repaired (print_core it ++ rest) = Ok it rest.
+Proof. exact item_rt. Qed.
+
+(** Programs with definitions, printed as [Program::to_quil] prints that list of instructions
+    (one newline after every item; consecutive newlines are one token) parse back to the same
+    list, and printing is stable. *)
+Theorem C02_items_roundtrip :
+  forall l : list item, forallb wf_item l = true -> p_items Repaired (print_items l) = Ok l [].
+Proof. exact items_rt. Qed.
+
+Corollary C02_items_print_stable :
+  forall l : list item, forallb wf_item l = true ->
+    forall l', p_items Repaired (print_items l) = Ok l' [] -> print_items l' = print_items l.
+Proof. intros l H l' H'. rewrite (items_rt l H) in H'. now injection H' as <-. Qed.
+
+(** Open finding [empty-definition-body]: the class excluded by [nonempty] is real — a DEFCAL
+    with an empty body prints to tokens the parser rejects. *)
+Theorem C02_empty_definition_body_refuted :
+  p_items Repaired (print_item (DefCal [] (IdName 0) [] [QFixed 0] [])) = Err /\
+  p_items Repaired (print_item (DefCircuit (IdName 0) [] [] [])) = Err /\
+  p_items Repaired (print_item (DefFrame ([QFixed 0], 0%N) [])) = Err /\
+  p_items Repaired (print_item (DefWaveform (IdName 0) None [] [])) = Err.
+Proof. vm_compute. repeat split. Qed.
+
 (** Open finding [rawcapture-region-i]: the class excluded by [wf_instr] is not vacuous — inside
     it the printed tokens do not parse back (everything else about the instruction is
     well-formed); outside it, with the same region name, they do. *)
@@ -69,6 +103,12 @@ Theorem C02_checker_sound :
     wf_instr i1 = true /\ t2 = print_instr i1 /\
     p_program Repaired t2 = Ok [i1] [] /\ b = true /\ d = true.
 Proof. exact case_code_sound. Qed.
+
+Theorem C02_item_checker_sound :
+  forall t1 it1 t2 b d, PrintParse.case_code (CItem t1 it1 t2 b d) = 0%N ->
+    wf_item it1 = true /\ t2 = print_item it1 /\
+    p_items Repaired t2 = Ok [it1] [] /\ b = true /\ d = true.
+Proof. exact item_code_sound. Qed.
 
 Theorem C02_opaque_checker_sound :
   forall a b d, PrintParse.case_code (COpaque a b d) = 0%N -> a = true /\ b = true /\ d = true.
@@ -104,4 +144,27 @@ Example C02_nonvacuous_quilt :
                    TId (IdRes RPi); TComma; TId (IdName 3); TColon; TFloat (FLex 0); TId (IdRes RI);
                    TRParen] /\
   p_program Repaired (print_program [p; c; r; k]) = Ok [p; c; r; k] [].
+Proof. vm_compute. repeat split. Qed.
+
+(** Non-vacuity for block definitions: a DEFCAL with a modifier, a parameter and a Quil-T body, a
+    DEFCAL MEASURE, a DEFCIRCUIT, a DEFFRAME and a DEFWAVEFORM in one program. *)
+Example C02_nonvacuous_items :
+  let w := {| wname := IdName 0; wext := None; wparams := [(IdName 2, EVar (IdName 1))] |} in
+  let c := DefCal [MDagger] (IdName 3) [EVar (IdName 1)] [QFixed 0]
+             [IPulse false ([QFixed 0], 0%N) w; IFence [QFixed 0]] in
+  let m := DefCalMeasure (Some (IdName 4)) (QVar (IdName 5)) (Some (IdName 6))
+             [ICapture true ([QVar (IdName 5)], 1%N) w (IdName 6, 0%N)] in
+  let d := DefCircuit (IdName 7) [IdName 1] [IdName 5; IdName 8]
+             [IGate [] (IdName 3) [EVar (IdName 1)] [QVar (IdName 5)]; IMeasure None (QVar (IdName 8)) None] in
+  let f := DefFrame ([QFixed 0; QFixed 1], 2%N)
+             [(IdName 9, AVString 3%N); (IdName 10, AVExpr (EInfix (ENum false (VLex 0)) OPlus (ENum false (VInt 2))))] in
+  let v := DefWaveform (IdName 0) (Some (IdName 11)) [IdName 1]
+             [ENum false (VInt 1); ENum true (VInt 2); EInfix (EVar (IdName 1)) OStar (ENum false (VInt 2))] in
+  let l := [c; Plain IHalt; m; d; f; v; Plain (IReset None)] in
+  forallb wf_item l = true /\
+  print_item m = [TCmd CDefCal; TCmd CMeasure; TBang; TId (IdName 4); TId (IdName 5); TId (IdName 6); TColon;
+                  TNewLine; TIndent; TCmd CCapture; TId (IdName 5); TString 1; TId (IdName 0); TLParen;
+                  TId (IdName 2); TColon; TVar (IdName 1); TRParen; TId (IdName 6); TLBracket; TInt 0;
+                  TRBracket; TNewLine] /\
+  p_items Repaired (print_items l) = Ok l [].
 Proof. vm_compute. repeat split. Qed.
